@@ -113,3 +113,41 @@ Proof.
       eapply path_step; [reflexivity| |apply path_refl; reflexivity].
       unfold adj8; cbn. repeat split; try lia. discriminate.
 Qed.
+
+(* ... and for the background: the empty image has exactly one background component *)
+Lemma walk_rows (P : px -> Prop) (all : forall q, P q) j i n : path adj4 P (i + Z.of_nat n, j) (i, j).
+Proof.
+  induction n as [|n IH].
+  - replace (i + Z.of_nat 0) with i by lia. apply path_refl. apply all.
+  - eapply path_step; [apply all| |exact IH]. unfold adj4; cbn [fst snd]. lia.
+Qed.
+Lemma walk_cols (P : px -> Prop) (all : forall q, P q) i j n : path adj4 P (i, j + Z.of_nat n) (i, j).
+Proof.
+  induction n as [|n IH].
+  - replace (j + Z.of_nat 0) with j by lia. apply path_refl. apply all.
+  - eapply path_step; [apply all| |exact IH]. unfold adj4; cbn [fst snd]. lia.
+Qed.
+Lemma walk_row_any (P : px -> Prop) (all : forall q, P q) j i : path adj4 P (i, j) (0, j).
+Proof.
+  destruct (Z_le_gt_dec 0 i) as [Hi|Hi].
+  - pose proof (walk_rows P all j 0 (Z.to_nat i)) as W. rewrite Z2Nat.id in W by lia. exact W.
+  - apply (path_sym adj4 P adj4_sym).
+    pose proof (walk_rows P all j i (Z.to_nat (- i))) as W. rewrite Z2Nat.id in W by lia.
+    replace (i + - i) with 0 in W by lia. exact W.
+Qed.
+Lemma walk_col_any (P : px -> Prop) (all : forall q, P q) i j : path adj4 P (i, j) (i, 0).
+Proof.
+  destruct (Z_le_gt_dec 0 j) as [Hj|Hj].
+  - pose proof (walk_cols P all i 0 (Z.to_nat j)) as W. rewrite Z2Nat.id in W by lia. exact W.
+  - apply (path_sym adj4 P adj4_sym).
+    pose proof (walk_cols P all i j (Z.to_nat (- j))) as W. rewrite Z2Nat.id in W by lia.
+    replace (j + - j) with 0 in W by lia. exact W.
+Qed.
+Example comp_reps_bg_example : comp_reps adj4 (bg (fun _ => false)) [(0,0)].
+Proof.
+  split; [|split].
+  - constructor; [reflexivity|constructor].
+  - cbn. split; [constructor|exact I].
+  - intros [i j] _. exists (0,0). split; [left; reflexivity|].
+    eapply path_trans; [apply walk_row_any|apply walk_col_any]; intros q; reflexivity.
+Qed.
